@@ -535,9 +535,10 @@ func ruleOp2Table(p *Prog, r *Result) {
 			}
 		}
 		n++
-		atoms := dominatingAtoms(al.Block())
+		var classify func(dataV, posV ssa.Value, atoms []Atom, at *ssa.BasicBlock, tag string)
+		classify = func(dataV, posV ssa.Value, atoms []Atom, at *ssa.BasicBlock, tag string) {
 		if s, isC := constString(dataV); isC {
-			key := fmt.Sprintf("tok|%q", s)
+			key := fmt.Sprintf("tok|%q", s) + tag
 			if tpc, ok := constInt(tpV); !ok || tpc != opTok {
 				r.hit(key, p.InstrPos(al), "constant-text token is not an OPERATOR token")
 				return
@@ -587,7 +588,7 @@ func ruleOp2Table(p *Prog, r *Result) {
 		}
 		// Data = string(char)
 		if cv, ok := dataV.(*ssa.Convert); ok && cv.X == char {
-			key := fmt.Sprintf("tok|string(char)#%d", n)
+			key := fmt.Sprintf("tok|string(char)#%d", n) + tag
 			r.add(posV == idx, key, p.InstrPos(al), "a single-character token carries the current character and the current index")
 			return
 		}
@@ -596,7 +597,7 @@ func ruleOp2Table(p *Prog, r *Result) {
 			if cv, ok := bo.X.(*ssa.Convert); ok {
 				if _, isPhi := cv.X.(*ssa.Phi); isPhi {
 					if tail, isC := constString(bo.Y); isC && len(tail) == 1 {
-						key := fmt.Sprintf("tok|string(prev)+%q#%d", tail, n)
+						key := fmt.Sprintf("tok|string(prev)+%q#%d", tail, n) + tag
 						eqOK := false
 						for _, a := range atoms {
 							if a.Op == token.EQL && a.X == char {
@@ -606,7 +607,7 @@ func ruleOp2Table(p *Prog, r *Result) {
 							}
 						}
 						// the previous characters under which this arm is reached
-						chars, closed := prevCharsInto(al.Block(), cv.X)
+						chars, closed := prevCharsInto(at, cv.X)
 						spell := true
 						for _, c := range chars {
 							sp := string(rune(c)) + tail
@@ -632,7 +633,23 @@ func ruleOp2Table(p *Prog, r *Result) {
 		if dataV != nil && p.derivesFromField(dataV, "Lexer", "Query", traceOpts{IntoReturns: true, MaxDepth: 2}) {
 			return
 		}
-		r.hit(fmt.Sprintf("tok|unclassified#%d", n), p.InstrPos(al), "a token literal in the scanner is neither a constant operator, string(char), string(prev)+c, nor text cut out of the query")
+		r.hit(fmt.Sprintf("tok|unclassified#%d", n) + tag, p.InstrPos(al), "a token literal in the scanner is neither a constant operator, string(char), string(prev)+c, nor text cut out of the query")
+			}
+		// one literal fed by locals merged from several arms (`opData, opPos := "=", i; switch prev { ... }`): each arm on its own
+		if dph, ok := dataV.(*ssa.Phi); ok {
+			pph, _ := posV.(*ssa.Phi)
+			for k, de := range dph.Edges {
+				pred := dph.Block().Preds[k]
+				pe := posV
+				if pph != nil && pph.Block() == dph.Block() {
+					pe = pph.Edges[k]
+				}
+				atoms := append(append([]Atom{}, dominatingAtoms(pred)...), edgeAtoms(pred, dph.Block())...)
+				classify(de, pe, atoms, pred, fmt.Sprintf("/arm%d", k+1))
+			}
+			return
+		}
+		classify(dataV, posV, dominatingAtoms(al.Block()), al.Block(), "")
 	})
 	r.floor("token literals in Lexer.Split", n, 10)
 	// every two-character operator spelling of the operator table is produced by some arm
